@@ -912,6 +912,21 @@ def kind_checks(rep, prog):
     rep.check(not bad, 'C10.5', 'PGPMessage.parse', 'SIGNATURE block without signed-message part: %s' % (bad[:2] or 'rejected'),
               'a detached signature block (no cleartext part) must not be read as a cleartext message with a made-up text', where=f.where,
               expected='dash_unescape(None) fails / explicit raise', found=bad[:3], scenario='label SIGNATURE, no cleartext group')
+    # ... and the rejection the unchanged tree relies on is dash_unescape(None) FAILING (re.subn on None: TypeError): a dash_unescape that
+    # answers None with a constant text turns every armored detached signature into an (empty) cleartext message (seeded change C10-w6mut2)
+    du = prog.cls('pgpy.pgp', 'PGPMessage').methods.get('dash_unescape')
+    if du is not None and not bad:
+        rep.saw(fn=du)
+        dp = [a for a in du.params if a not in ('self', 'cls')]
+        made_up = []
+        for s in Interp(prog, Scenario(args={dp[0]: Const(None)}, inline=noinline)).run(du) if dp else []:
+            if s.raised is None and isinstance(s.ret, Const) and isinstance(s.ret.value, (str, bytes)):
+                made_up.append(repr(s.ret.value))
+        reaches_none = any(a == ['None'] for s in outs for a in [[c[1][0] for c in s.calls if c[0].split('.')[-1] == 'dash_unescape' and c[1]]])
+        rep.check(not (made_up and reaches_none), 'C10.5', 'PGPMessage.dash_unescape', 'absent cleartext part -> %s' % (made_up or 'fails'),
+                  'PGPMessage.parse hands the absent signed-message part of a bare SIGNATURE block to dash_unescape and relies on it failing; '
+                  'answering None with a text makes a detached signature load as a cleartext message (wrong kind accepted)', where=du.where,
+                  expected='dash_unescape(None) raises', found=made_up, scenario='label SIGNATURE, no cleartext group')
 
 
 # ------------------------------------------------------------------------------------------------ C10.6 / C10.7 reader
